@@ -4,6 +4,7 @@ package main
 
 import (
 	"encoding/json"
+	"math/big"
 	"regexp"
 	"strings"
 
@@ -14,7 +15,7 @@ import (
 
 // msigEngine: `msig <validators> <sigs>` runs VerifyPool.verifyMultiSign with real secp256k1 signatures.
 //   validators: comma list of key names (repeats allowed), "nil" (no trust root), "bad" (undecodable), "[]" (empty list)
-//   sigs: comma list of  <key> (valid signature by that key) | w:<key> (signature over another digest) | junk (65 garbage bytes) |
+//   sigs: comma list of  <key> (valid signature by that key) | m:<key> (its malleated twin, same signer) | w:<key> (signature over another digest) | junk (65 garbage bytes) |
 //         short (3 bytes); "-" = no signature
 // output: ok | fail:<counter> | err
 type msigEngine struct{}
@@ -66,6 +67,18 @@ func (m *msigEngine) step(ws []string) string {
 				sigs = append(sigs, b)
 			case s == "short":
 				sigs = append(sigs, []byte{1, 2, 3})
+			case strings.HasPrefix(s, "m:"): // the malleated twin (r, N-s, v^1) of a valid signature: same signer, other bytes
+				sg, err := acct("val-" + s[2:]).priv.Sign(digest)
+				if err != nil || len(sg) != 65 {
+					return "err sign"
+				}
+				n, _ := new(big.Int).SetString("fffffffffffffffffffffffffffffffebaaedce6af48a03bbfd25e8cd0364141", 16)
+				ns := new(big.Int).Sub(n, new(big.Int).SetBytes(sg[32:64]))
+				tw := make([]byte, 65)
+				copy(tw, sg[:32])
+				ns.FillBytes(tw[32:64])
+				tw[64] = sg[64] ^ 1
+				sigs = append(sigs, tw)
 			case strings.HasPrefix(s, "w:"):
 				sg, err := acct("val-" + s[2:]).priv.Sign(other)
 				if err != nil {
